@@ -11,7 +11,7 @@ from props import c02
 
 ID = "C18"
 FMTS = ["h5", "xtc", "trr", "dcd", "nc", "mdcrd", "xyz", "lammpstrj", "dtr", "arc"]
-ARC = "tests/data/nitrogen.arc"
+ARC = "seeds/nitrogen.arc"
 RULE = ("case = (seekable format, file of 1-12 frames, optional fixed atom_indices, sequence of <=25 operations over two handles "
         "from {read(n), read(), seek(k) in range, seek(d,1) in range, tell(), len()}); oracle = integer cursor per handle + the "
         "frames read by a fresh handle in one go (all returned arrays compared bit-for-bit, tell/len compared with the model; after "
@@ -168,7 +168,7 @@ def run_case(case):
     fmt = case["fmt"]
     viol, labels = [], ["fmt:" + fmt] + list(case.get("excluded", []))
     if fmt == "arc":
-        fn = os.path.join(os.environ.get("VERIF_REPO", "/repo"), ARC)
+        fn = os.path.join(files.VERIF, ARC)
         na_file = None
     else:
         fn, tr, _full = c02._file(fmt, case["nf"], case["na"], case["cell"], case["seed"])
